@@ -104,14 +104,16 @@ func newC17Mod(t *testing.T) *c17Mod {
 		w.proxies = append(w.proxies, addr)
 	}
 	w.plain = common.BytesToAddress([]byte{0xc1, 0x7b, 0x00, 0x00, 0xee})
-	// governance: proposal 1 in voting period
-	dep := a.GovKeeper.GetDepositParams(ctx).MinDeposit
-	pmsg, err := govtypes.NewMsgSubmitProposal(govtypes.NewTextProposal("m", "c17"), dep, m.B.SenderAcc)
-	if err != nil {
-		t.Fatal(err)
-	}
-	if _, err := a.MsgServiceRouter().Handler(pmsg)(ctx, pmsg); err != nil {
-		t.Fatal(err)
+	// governance: proposals 1 and 3 in voting period, proposal 2 in deposit period
+	minDep := a.GovKeeper.GetDepositParams(ctx).MinDeposit
+	for i, dep := range []sdk.Coins{minDep, sdk.NewCoins(), minDep} {
+		pmsg, err := govtypes.NewMsgSubmitProposal(govtypes.NewTextProposal(fmt.Sprintf("m%d", i), "c17"), dep, m.B.SenderAcc)
+		if err != nil {
+			t.Fatal(err)
+		}
+		if _, err := a.MsgServiceRouter().Handler(pmsg)(ctx, pmsg); err != nil {
+			t.Fatal(err)
+		}
 	}
 	// voucher of A's native coin on B
 	ctor, err := erc20contracts.ERC20MinterBurnerDecimalsContract.ABI.Pack("", "voucher", "vch", uint8(18))
@@ -429,7 +431,7 @@ func (g *c17Gen) recvOp(m *c17Mod) string {
 	call := func(who common.Address) *c17Call {
 		c := g.call(who)
 		// keep successful stakes far below one unit of consensus power (the validators must stay out of the active set)
-		if c.amt != nil && c.amt.BitLen() < 200 && c.amt.BitLen() > 40 {
+		if c.amt != nil && c.amt.BitLen() < 200 && c.amt.BitLen() > 20 {
 			c.amt = small()
 		}
 		return c
@@ -443,7 +445,14 @@ func (g *c17Gen) recvOp(m *c17Mod) string {
 	}
 	reverts := "0"
 	var root *c17Node
-	switch x := g.pick(100); {
+	x := g.pick(100)
+	if g.pick(20) == 0 { // a native panic (sdk.Dec overflow in SharesFromTokens) inside the callback
+		if c := g.overflowCall(exec); c != nil {
+			root, x = &c17Node{tag: 'S', kind: 'c', call: c}, 1000
+		}
+	}
+	switch {
+	case x == 1000:
 	case x < 50:
 		root = &c17Node{tag: 'S', kind: 'c', call: call(exec)}
 	case x < 53:
@@ -468,7 +477,7 @@ func (g *c17Gen) recvOp(m *c17Mod) string {
 				if n.tag == 'K' { // CREATE2 callers are exercised on the transaction path (they need the `fund` operation)
 					continue
 				}
-				if n.call != nil && n.call.amt != nil && n.call.amt.BitLen() < 200 && n.call.amt.BitLen() > 40 {
+				if n.call != nil && n.call.amt != nil && n.call.amt.BitLen() < 200 && n.call.amt.BitLen() > 20 {
 					n.call.amt = small()
 				}
 				n.body = fix(n.body)
@@ -484,6 +493,7 @@ func (g *c17Gen) recvOp(m *c17Mod) string {
 	}
 	rootTok := "none"
 	if root != nil {
+		c17CapOpts([]*c17Node{root}, 101)
 		rootTok = w.nodeToks(root)
 	}
 	return fmt.Sprintf("recv 0 %s 1 %s %s", amount, reverts, rootTok)
